@@ -139,6 +139,12 @@ def run(R):
             arr = (np.arange(int(np.prod(shape))) % 251).astype(dt).reshape(shape)
             vox = (1.0, 2.0, 1.0)           # chunk size along y smaller than along z
         damage = i % 3 == 1
+        if i == 2:
+            # float32 volume whose chunks beyond x >= 8 hold nothing but NaN (outside the field of view)
+            dt, shape, vox = "float32", [13, 5, 5], (1.0, 1.0, 1.0)
+            arr = (np.arange(int(np.prod(shape))) % 251).astype(dt).reshape(shape)
+            arr[8:, :, :] = np.nan
+            R.count("real:float32-with-all-NaN-chunks")
         d = os.path.join(R.tmp, f"ds{i}")
         os.makedirs(d)
         nii = os.path.join(d, "v.nii")
@@ -240,6 +246,46 @@ def run(R):
                             R.violation("reported chunk count differs from the files really written (scale with "
                                         "several chunk sizes)", {"scale": s_["key"], "chunk_size": cs_,
                                                                  "size": s_["size"]}, {"reported": rep, "files": have})
+
+    _slice_datasets(R, rng, scale_stats)
+
+
+def _slice_datasets(R, rng, scale_stats):
+    """Datasets produced by slices-to-precomputed with non-cubic chunk sizes and non-axial orientations: the
+    chunks that scale-stats counts must be on disk."""
+    from PIL import Image
+    from harness.props.c15 import make_info
+    AXn = {"R": 0, "L": 0, "A": 1, "P": 1, "S": 2, "I": 2}
+    for k, (code, chunk) in enumerate([("RIA", [4, 5, 2]), ("ASR", [2, 3, 5]), ("RAS", [3, 2, 4]), ("LIP", [4, 2, 8])]):
+        size = [9, 11, 7]
+        w, h, n = size[AXn[code[0]]], size[AXn[code[1]]], size[AXn[code[2]]]
+        sdir = os.path.join(R.tmp, f"slstack{k}")
+        os.makedirs(sdir)
+        for j in range(n):
+            Image.fromarray(np.frombuffer(rng.randbytes(w * h), dtype="uint8").reshape(h, w), mode="L").save(
+                os.path.join(sdir, f"s{j:03d}.png"))
+        dest = os.path.join(R.tmp, f"slout{k}")
+        make_info(dest, size, chunk, 1, "uint8")
+        rc, so, se = pipeline.run_script("slices_to_precomputed", [sdir, dest, "--input-orientation", code],
+                                         inprocess=True)
+        case = {"slices_dataset": True, "orientation": code, "size": size, "chunk_size": chunk}
+        R.case(case, nontrivial=True)
+        R.count("slices:" + ("converted" if rc == 0 else "failed"))
+        if rc != 0:
+            R.violation("slices-to-precomputed failed on a plain 8-bit stack", case, {"stderr": se[-300:]})
+            continue
+        buf = io.StringIO()
+        with contextlib.redirect_stdout(buf), np.errstate(all="ignore"):
+            scale_stats.main(["scale-stats", dest])
+        rows = [LINE.match(ln) for ln in buf.getvalue().splitlines() if ln.startswith("Scale ")]
+        if len(rows) != 1 or not rows[0]:
+            R.violation("scale-stats output not parseable (slices dataset)", case, {})
+            continue
+        rep = int(rows[0].group(6).replace(",", ""))
+        have = pipeline.count_grid_files(dest, "full", size, chunk)
+        if rep != have:
+            R.violation("reported chunk count differs from the files really written (dataset converted from slices)",
+                        case, {"reported": rep, "files": have})
 
 
 def _value_of(text):
